@@ -75,6 +75,9 @@ def run_mode(ctx, pkg, mode, env=None, timeout=1800, mem_gb=6, what=None, max_re
     for attempt in range(max_restarts + 1):
         e = {"VERIF_RESUME_AFTER": resume_after, "VERIF_RESUMABLE": "1" if resume else "", "VERIF_MODE": mode, "VERIF_SEED": str(ctx.seed), "VERIF_SCHEMA": pkg.schema, "VERIF_CONFIG": pkg.config,
              "VERIF_SKIP_ITEMS": ",".join(skip), "VERIF_SANITY": "1" if CONFIGS[pkg.config].get("sanity", True) else "0"}
+        # the address-space limit (ulimit -v) is invisible to Go's collector: give it a soft limit below it, so that garbage is collected
+        # before the limit is hit (a single allocation above the limit still fails as before)
+        e["GOMEMLIMIT"] = "%dMiB" % (mem_gb * 1024 * 6 // 10)
         if env:
             e.update({k: str(v) for k, v in env.items()})
         r = ctx.run([pkg.binary], env=e, timeout=timeout, mem_gb=mem_gb, quit_dump=False)
